@@ -439,6 +439,8 @@ class Engine:
         if "item" in c:
             if "promoted" in c:
                 return self.eval_promoted(fr, c["item"], c["promoted"])
+            if "int" in c:
+                return ("int", c["int"])
             p = c["item_path"]
             rec = self.prog.consts.get(p)
             if rec is not None and "int" in rec:
